@@ -277,9 +277,13 @@ class ModeDReader(MeterReaderBase[DataReadout]):
         """
         readouts_received: list[DataReadout] = []
 
-        if len(self._buffer) > 8191:
+        # Drop bytes consumed by earlier calls, so that only pending data is counted.
+        self._buffer.trim_buffer_to_current_position()
+        if len(self._buffer) + len(self._raw_data) > 8191:
+            # Pending data is too large to be a readout. Discard it and hunt for the next.
             self._is_int_hunt_mode = True
-            self._buffer.trim_buffer_to_flag_or_end()
+            self._raw_data.clear()
+            self._buffer.clear()
 
         self._buffer.extend(data_chunk)
 
@@ -333,6 +337,11 @@ class _ReaderBuffer:
     def extend(self, data_chunk: bytes) -> None:
         """Add bytes to buffer."""
         self._buffer.extend(data_chunk)
+
+    def clear(self) -> None:
+        """Discard all bytes in buffer."""
+        self._buffer.clear()
+        self._buffer_pos = 0
 
     def trim_buffer_to_current_position(self) -> None:
         """Trim buffer to current position."""
